@@ -1,0 +1,65 @@
+//go:build verif
+
+package transport
+
+import (
+	"context"
+	"time"
+)
+
+// This file is only built with the "verif" build tag. It exposes a few
+// internals to the external verification harness and changes no behaviour.
+
+// VerifQueueLen returns the number of queries the connection currently counts
+// against its limit (queued + reserved).
+func (dc *TraditionalDnsConn) VerifQueueLen() int { return dc.queueLen() }
+
+// VerifCounters returns the reserved counter and the size of the waiter table.
+func (dc *TraditionalDnsConn) VerifCounters() (reserved, queued int) {
+	dc.queueMu.RLock()
+	defer dc.queueMu.RUnlock()
+	return dc.reservedQuery, len(dc.queue)
+}
+
+// VerifSetNextQid sets the next wire id the connection will try.
+func (dc *TraditionalDnsConn) VerifSetNextQid(id uint16) {
+	dc.queueMu.Lock()
+	dc.nextQid = id
+	dc.queueMu.Unlock()
+}
+
+// VerifCopyMsgWithLenHdr exposes copyMsgWithLenHdr.
+func VerifCopyMsgWithLenHdr(m []byte) (*[]byte, error) { return copyMsgWithLenHdr(m) }
+
+// VerifReadMsgUdp exposes readMsgUdp.
+var VerifReadMsgUdp = readMsgUdp
+
+// VerifNewLazyDnsConn exposes newLazyDnsConn.
+func VerifNewLazyDnsConn(dial func(ctx context.Context) (DnsConn, error), dialTimeout time.Duration, maxQueue int) DnsConn {
+	return newLazyDnsConn(dial, dialTimeout, maxQueue, nopLogger)
+}
+
+// VerifLazyReserved returns the lazy connection's reservation counter.
+func VerifLazyReserved(c DnsConn) int {
+	lc := c.(*lazyDnsConn)
+	lc.mu.Lock()
+	defer lc.mu.Unlock()
+	return lc.reservedQuery
+}
+
+// VerifConnCounts returns the sizes of the transport's connection sets.
+func (t *ReuseConnTransport) VerifConnCounts() (conns, idle int) {
+	t.m.Lock()
+	defer t.m.Unlock()
+	return len(t.conns), len(t.idleConns)
+}
+
+// VerifSetWaitRespTimeout sets the per-query timeout of the reuse transport.
+func (t *ReuseConnTransport) VerifSetWaitRespTimeout(d time.Duration) { t.testWaitRespTimeout = d }
+
+// VerifConnCount returns the number of connections the transport tracks.
+func (t *PipelineTransport) VerifConnCount() int {
+	t.m.Lock()
+	defer t.m.Unlock()
+	return len(t.conns)
+}
